@@ -98,6 +98,72 @@ def quote_safe_chars(call, mod):
     return _const_chars(safe, mod)
 
 
+def content_length_rule(rep, h, rid):
+    """Content-Length is the length of the very bytes object written as the
+    body (shared by C17.R6 and C03.R7)"""
+    # ---- R6: Content-Length counts the bytes that are written ---------------
+    r6 = rep.rule(rid, 'Content-Length is the length of the very bytes '
+                  'object written as the body')
+    for f in h.methods.values():
+        writes_ = [c for c in walk_no_nested(f.node)
+                   if isinstance(c, ast.Call) and
+                   dotted(c.func) == 'self.wfile.write' and c.args]
+        if not writes_:
+            continue
+        r6.functions.add(f.fq)
+        lens = []
+        for c in walk_no_nested(f.node):
+            if isinstance(c, ast.Call) and \
+                    dotted(c.func) == 'self.send_header' and \
+                    len(c.args) == 2 and \
+                    (const_str(c.args[0]) or '').lower() == 'content-length':
+                lens.append(c)
+        for w in writes_:
+            r6.sites += 1
+            body = w.args[0]
+            ok = isinstance(body, ast.Name) and len(lens) == 1
+            why = 'the body written is not a plain variable, or there is ' \
+                  'not exactly one Content-Length header'
+            if ok:
+                le = lens[0].args[1]
+                # str(len(<same variable>))
+                ok = isinstance(le, ast.Call) and dotted(le.func) == 'str' \
+                    and le.args and isinstance(le.args[0], ast.Call) and \
+                    dotted(le.args[0].func) == 'len' and \
+                    norm(le.args[0].args[0]) == body.id
+                why = 'Content-Length is %s but the body written is %s' % (
+                    norm(le), norm(body))
+            if ok:
+                # the variable holds encoded bytes when its length is taken:
+                # an .encode() assignment precedes the header, and nothing is
+                # assigned to it afterwards
+                enc = [n for n in walk_no_nested(f.node)
+                       if isinstance(n, ast.Assign) and
+                       norm(n.targets[0]) == body.id and
+                       isinstance(n.value, ast.Call) and
+                       isinstance(n.value.func, ast.Attribute) and
+                       n.value.func.attr == 'encode' and
+                       n.lineno < lens[0].lineno]
+                later = [n for n in walk_no_nested(f.node)
+                         if isinstance(n, (ast.Assign, ast.AugAssign)) and
+                         any(norm(t) == body.id for t in (
+                             n.targets if isinstance(n, ast.Assign)
+                             else [n.target])) and
+                         n.lineno > lens[0].lineno]
+                ok = bool(enc) and not later
+                why = 'the body variable is not encoded to bytes before ' \
+                      'its length is taken (or is changed afterwards)'
+            r6.ob(ok, f.qualname, {'function': f.qualname,
+                                   'body': norm(body), 'holds': ok})
+            if not ok:
+                rep.finding(r6, f.qualname, norm(w), 'length-of-other-object',
+                            LS, w.lineno, why + ': for non-ASCII text the '
+                            'character count differs from the byte count, so '
+                            'the client reads a truncated (ill-formed) body')
+    if r6.sites < 1:
+        raise AnalysisError('listener: body writes not found')
+
+
 def is_resp_stmt(st):
     if isinstance(st, (ast.If, ast.For, ast.While, ast.Try, ast.With)):
         return 0
@@ -385,67 +451,7 @@ def run(repo, rep, tier):
                         'loop and a request that stalls (Content-Length '
                         'larger than what was sent) blocks all later '
                         'indications')
-    # ---- R6: Content-Length counts the bytes that are written ---------------
-    r6 = rep.rule('C17.R6', 'Content-Length is the length of the very bytes '
-                  'object written as the body')
-    for f in h.methods.values():
-        writes_ = [c for c in walk_no_nested(f.node)
-                   if isinstance(c, ast.Call) and
-                   dotted(c.func) == 'self.wfile.write' and c.args]
-        if not writes_:
-            continue
-        r6.functions.add(f.fq)
-        lens = []
-        for c in walk_no_nested(f.node):
-            if isinstance(c, ast.Call) and \
-                    dotted(c.func) == 'self.send_header' and \
-                    len(c.args) == 2 and \
-                    (const_str(c.args[0]) or '').lower() == 'content-length':
-                lens.append(c)
-        for w in writes_:
-            r6.sites += 1
-            body = w.args[0]
-            ok = isinstance(body, ast.Name) and len(lens) == 1
-            why = 'the body written is not a plain variable, or there is ' \
-                  'not exactly one Content-Length header'
-            if ok:
-                le = lens[0].args[1]
-                # str(len(<same variable>))
-                ok = isinstance(le, ast.Call) and dotted(le.func) == 'str' \
-                    and le.args and isinstance(le.args[0], ast.Call) and \
-                    dotted(le.args[0].func) == 'len' and \
-                    norm(le.args[0].args[0]) == body.id
-                why = 'Content-Length is %s but the body written is %s' % (
-                    norm(le), norm(body))
-            if ok:
-                # the variable holds encoded bytes when its length is taken:
-                # an .encode() assignment precedes the header, and nothing is
-                # assigned to it afterwards
-                enc = [n for n in walk_no_nested(f.node)
-                       if isinstance(n, ast.Assign) and
-                       norm(n.targets[0]) == body.id and
-                       isinstance(n.value, ast.Call) and
-                       isinstance(n.value.func, ast.Attribute) and
-                       n.value.func.attr == 'encode' and
-                       n.lineno < lens[0].lineno]
-                later = [n for n in walk_no_nested(f.node)
-                         if isinstance(n, (ast.Assign, ast.AugAssign)) and
-                         any(norm(t) == body.id for t in (
-                             n.targets if isinstance(n, ast.Assign)
-                             else [n.target])) and
-                         n.lineno > lens[0].lineno]
-                ok = bool(enc) and not later
-                why = 'the body variable is not encoded to bytes before ' \
-                      'its length is taken (or is changed afterwards)'
-            r6.ob(ok, f.qualname, {'function': f.qualname,
-                                   'body': norm(body), 'holds': ok})
-            if not ok:
-                rep.finding(r6, f.qualname, norm(w), 'length-of-other-object',
-                            LS, w.lineno, why + ': for non-ASCII text the '
-                            'character count differs from the byte count, so '
-                            'the client reads a truncated (ill-formed) body')
-    if r6.sites < 1:
-        raise AnalysisError('listener: body writes not found')
+    content_length_rule(rep, h, 'C17.R6')
     # ---- R3 ---------------------------------------------------------------
     she = h.methods['send_http_error']
     r3.functions.update([she.fq, post.fq])
